@@ -750,4 +750,234 @@ theorem HStep.astep {i : Nat} {w w' : World} {held held' : Option ASlice} (hs : 
     · cases ha
       exact World.HasSlice.derived (Or.inr ⟨j, _, h, rfl⟩)
 
+/-! ### Every micro-step keeps the invariant -/
+
+theorem IovOkZ.pushCopyStep {n n' : Nat} {e : List (List UInt8)} {zs : List Anchor} {v : Iov} (hv : IovOkZ n e zs v)
+    {arena' : Arena} {chunk off len ls : Nat} (hn : n ≤ n') (hck : chunk < n') (hao : ArenaOk n' arena') (hl : 0 < len) :
+    IovOkZ n' e zs { v with slices := v.slices ++ [⟨.chunk chunk, off, len⟩], anchors := copyAnchors v.anchors chunk,
+                            logicalSize := ls, arena := arena' } := by
+  refine ⟨hv.zero, copyAnchors_guardZ hv.guard hv.zero _ _ _ hl, ?_, hao, ?_⟩
+  · intro k hk
+    rcases copyAnchors_chunksZ _ _ _ k hk with hk | rfl
+    · exact Nat.lt_of_lt_of_le (hv.anchorsLt k hk) hn
+    · exact hck
+  · intro s hs
+    simp only [List.mem_append, List.mem_singleton] at hs
+    rcases hs with hs | rfl
+    · exact hv.extOk s hs
+    · intro b hb; simp at hb
+
+theorem HInv.pushCopy {i : Nat} {w w' : World} {held : Option ASlice} {bs : List UInt8} (h : HInv i w held)
+    (hp : w.pushCopy i bs = some w') : HInv i w' held := by
+  have hst : HStep i w held w' held := .copy hp
+  obtain ⟨v, hv, ⟨_, rfl⟩ | ⟨hne, arena', next', chunk, off, v2, hal, ho, rfl⟩⟩ := pushCopy_spec hp
+  · exact h
+  · have hvok := h.iovOk i v hv
+    rw [if_pos rfl] at hvok
+    obtain ⟨hn, hck, hao⟩ := alloc_ok hvok.cacheLt hal
+    have hlen : 0 < bs.length := by cases bs <;> simp_all
+    refine h.setIov (v' := v2) hn rfl (fun j => iov_setIov _ _ _ _) (fun _ => rfl)
+      (fun _ => rfl) ?_ hst.astep
+    exact (hvok.pushCopyStep hn hck hao hlen).optimize ho
+
+theorem HInv.pushBorrowed {i : Nat} {w w' : World} {held : Option ASlice} {s : Slice} (h : HInv i w held)
+    (hp : w.pushBorrowed i s = some w') (hs : ExtOk w.exts s)
+    (hc : ∀ k, s.region = .chunk k → k ∈ anchorChunks (heldZs held)) (hst : HStep i w held w' held) :
+    HInv i w' held := by
+  obtain ⟨v, hv, ⟨_, rfl⟩ | ⟨_, v', hpb, rfl⟩⟩ := pushBorrowed_spec hp
+  · exact h
+  · have hvok := h.iovOk i v hv
+    rw [if_pos rfl] at hvok
+    refine h.setIov (v' := v') (Nat.le_refl _) rfl (fun j => iov_setIov _ _ _ _) (fun _ => rfl)
+      (fun _ => rfl) ?_ hst.astep
+    exact hvok.pushBorrowedSlice hpb hs hc
+
+theorem HStep.inv {i : Nat} {w w' : World} {held held' : Option ASlice} (h : HInv i w held)
+    (hst : HStep i w held w' held') : HInv i w' held' := by
+  cases hst with
+  | copy hp => exact h.pushCopy hp
+  | pushExt hp hr he =>
+    rcases push_cases hp with hp' | hp'
+    · exact h.pushCopy hp'
+    · refine h.pushBorrowed hp' he ?_ (.pushExt hp hr he)
+      intro k hk
+      obtain ⟨b, hb⟩ := hr
+      rw [hb] at hk; cases hk
+  | @pushHeld _ a s hp hr hk h1 h2 =>
+    rcases push_cases hp with hp' | hp'
+    · exact h.pushCopy hp'
+    · refine h.pushBorrowed hp' ?_ ?_ (.pushHeld hp hr hk h1 h2)
+      · intro b hb
+        obtain ⟨k, hk⟩ := hk
+        rw [hk] at hb; cases hb
+      · intro k hk'
+        have := (h.heldOk a rfl).anchored k (by rw [← hr]; exact hk')
+        rw [mem_anchorChunks]
+        exact ⟨_, List.mem_singleton.2 rfl, this⟩
+  | @register _ _ pat b hp =>
+    have hst : HStep i w held w' held := .register hp
+    rcases registerPatch_spec hp with ⟨_, rfl, _⟩ | ⟨_, w1, v, last, hpc, hv, _, _, _, _, rfl⟩
+    · exact h
+    · have h1 := h.pushCopy hpc
+      have hvok := h1.iovOk i v hv
+      rw [if_pos rfl] at hvok
+      refine h1.setIov (Nat.le_refl _) rfl (fun j => iov_setIov _ _ _ _) (fun _ => rfl) (fun _ => rfl)
+        (hvok.with_backrefs _) ?_
+      refine (quiet_setIov_same hv ?_ ?_).astep.holding _
+      · rfl
+      · exact fun s' hs' => World.HasSlice.derived (Or.inl ⟨i, v, hv, hs'⟩)
+  | @backfill _ _ b src hp =>
+    have hst : HStep i w held w' held := .backfill hp
+    obtain ⟨v, hv, ⟨_, _, rfl⟩ | ⟨key, info, target, k, _, _, _, _, _, _, _, rfl⟩⟩ := backfill_spec hp
+    · exact h
+    · have hvok := h.iovOk i v hv
+      rw [if_pos rfl] at hvok
+      refine h.setIov (Nat.le_refl _) rfl (fun j => iov_setIov _ _ _ _) (fun _ => rfl)
+        (fun _ => rfl) (hvok.with_backrefs _) hst.astep
+  | @consume _ k n hp =>
+    have hst : HStep i w none w' none := .consume hp
+    obtain ⟨v, m, v', hv, _, hc, rfl⟩ := consume_spec hp
+    have hvok := h.iovOk i v hv
+    rw [if_pos rfl] at hvok
+    exact h.setIov (Nat.le_refl _) rfl (fun j => iov_setIov _ _ _ _) (fun _ => rfl) (fun _ => rfl)
+      (IovOkZ.consumeSlices hvok hc) hst.astep
+  | @advance _ k n hp =>
+    have hst : HStep i w none w' none := .advance hp
+    obtain ⟨v, m, v', k', hv, _, hc, rfl⟩ := advance_spec hp
+    have hvok := h.iovOk i v hv
+    rw [if_pos rfl] at hvok
+    exact h.setIov (Nat.le_refl _) rfl (fun j => iov_setIov _ _ _ _) (fun _ => rfl) (fun _ => rfl)
+      (IovOkZ.consumeBytes hvok hc) hst.astep
+  | lend d =>
+    exact h.transfer (Nat.le_refl _) ⟨[d], rfl⟩ (fun j v hv => Or.inl ⟨hv, fun _ => rfl⟩) (fun j a hj => Or.inl hj)
+      (fun j s hj => Or.inl hj) (fun a ha => Or.inl ha) (HStep.lend (i := i) d).astep
+  | @readOk _ a o r count attempts hp hl =>
+    have hst : HStep i w none w' (some a) := .readOk hp hl
+    obtain ⟨v, w1, ar', hv, hr, ⟨hpp, nx, rfl⟩, rfl⟩ := readOwn_spec hp
+    have hvok := h.iovOk i v hv
+    rw [if_pos rfl] at hvok
+    obtain ⟨_, hn, hao, hres⟩ := readN_inv (fun c hc => hvok.cacheLt c hc) hr
+    have haok := hres a rfl
+    refine h.transfer hn ⟨[], by simp [World.setIov]⟩ ?_ (fun j a hj => Or.inl hj) (fun j s hj => Or.inl hj)
+      (fun a' ha' => by cases ha'; exact Or.inr haok) hst.astep
+    intro j x hx
+    simp only [iov_setIov] at hx
+    by_cases e : j = i
+    · rw [if_pos e] at hx; cases hx
+      right; rw [if_pos e]
+      exact ((hvok.mono0 hn).with_arena ar' hao).hold a.anchor.chunk (fun k hk => haok.chunkLt k hk)
+    · rw [if_neg e] at hx
+      exact Or.inl ⟨hx, fun e' => absurd e' e⟩
+  | @readEmpty _ a o r count attempts hp hl =>
+    have hst : HStep i w none w' none := .readEmpty hp hl
+    obtain ⟨v, w1, ar', hv, hr, ⟨hpp, nx, rfl⟩, rfl⟩ := readOwn_spec hp
+    have hvok := h.iovOk i v hv
+    rw [if_pos rfl] at hvok
+    obtain ⟨_, hn, hao, _⟩ := readN_inv (fun c hc => hvok.cacheLt c hc) hr
+    exact h.setIov hn rfl (fun j => iov_setIov _ _ _ _) (fun _ => rfl) (fun _ => rfl)
+      ((hvok.mono0 hn).with_arena ar' hao) hst.astep
+  | @readErr _ k o r count attempts hp =>
+    have hst : HStep i w none w' none := .readErr hp
+    obtain ⟨v, w1, ar', hv, hr, ⟨hpp, nx, rfl⟩, rfl⟩ := readOwn_spec hp
+    have hvok := h.iovOk i v hv
+    rw [if_pos rfl] at hvok
+    obtain ⟨_, hn, hao, _⟩ := readN_inv (fun c hc => hvok.cacheLt c hc) hr
+    exact h.setIov hn rfl (fun j => iov_setIov _ _ _ _) (fun _ => rfl) (fun _ => rfl)
+      ((hvok.mono0 hn).with_arena ar' hao) hst.astep
+  | @anchor _ a hp =>
+    have hst : HStep i w (some a) w' none := .anchor hp
+    unfold World.pushAnchor at hp
+    cases hv : w.iov i with
+    | none => rw [hv] at hp; cases hp
+    | some v =>
+      rw [hv] at hp
+      simp only [Option.some.injEq] at hp
+      subst hp
+      have hvok := h.iovOk i v hv
+      rw [if_pos rfl] at hvok
+      refine h.transfer (Nat.le_refl _) ⟨[], by simp [World.setIov]⟩ ?_ (fun j a hj => Or.inl hj)
+        (fun j s hj => Or.inl hj) (fun a' ha' => by cases ha') hst.astep
+      intro j x hx
+      simp only [iov_setIov] at hx
+      by_cases e : j = i
+      · rw [if_pos e] at hx; cases hx
+        right; rw [if_pos e]
+        exact IovOkZ.pushAnchor hvok
+      · rw [if_neg e] at hx
+        exact Or.inl ⟨hx, fun e' => absurd e' e⟩
+  | @take j a hj hl =>
+    have hst : HStep i w none (w.setASlice j none) (some a) := .take hj hl
+    have haok := h.asliceOk j a hj
+    refine h.transfer (Nat.le_refl _) ⟨[], by simp [World.setASlice]⟩ ?_ (fun j a hj => Or.inl hj) ?_
+      (fun a' ha' => by cases ha'; exact Or.inr haok) hst.astep
+    · intro j' x hx
+      have hx' : w.iov j' = some x := hx
+      by_cases e : j' = i
+      · right; rw [if_pos e]
+        have hvok := h.iovOk j' x hx'
+        rw [if_pos e] at hvok
+        exact hvok.hold a.anchor.chunk (fun k hk => haok.chunkLt k hk)
+      · exact Or.inl ⟨hx', fun e' => absurd e' e⟩
+    · intro j' s hs
+      simp only [aslice_setASlice] at hs
+      split at hs
+      · cases hs
+      · exact Or.inl hs
+
+/-- A chain of micro-steps. -/
+inductive HPath (i : Nat) : World → Option ASlice → World → Option ASlice → Prop
+  | nil (w : World) (held : Option ASlice) : HPath i w held w held
+  | cons {w w1 w2 : World} {h h1 h2 : Option ASlice} : HStep i w h w1 h1 → HPath i w1 h1 w2 h2 → HPath i w h w2 h2
+
+theorem HPath.single {i : Nat} {w w' : World} {h h' : Option ASlice} (s : HStep i w h w' h') : HPath i w h w' h' :=
+  .cons s (.nil _ _)
+
+theorem HPath.trans {i : Nat} {w w1 w2 : World} {h h1 h2 : Option ASlice} (a : HPath i w h w1 h1)
+    (b : HPath i w1 h1 w2 h2) : HPath i w h w2 h2 := by
+  induction a with
+  | nil => exact b
+  | cons s _ ih => exact .cons s (ih b)
+
+theorem HPath.inv {i : Nat} {w w' : World} {held held' : Option ASlice} (p : HPath i w held w' held')
+    (h : HInv i w held) : HInv i w' held' := by
+  induction p with
+  | nil => exact h
+  | cons s _ ih => exact ih (s.inv h)
+
+/-- Along a chain from a world that satisfies the invariant: every micro-step is between worlds that
+satisfy the invariant and has the conclusion of `C05.no_overlap` (on the holding worlds: the held slice
+counts as an existing slice). -/
+def StepFresh (w w' : World) : Prop :=
+  ∃ k lo hi, lo ≤ hi ∧
+    (∀ s, w.HasSlice s → s.region = .chunk k → s.off + s.len ≤ lo) ∧
+    (∀ s', w'.HasSlice s' → w.Derived s' ∨
+      (s'.region = .chunk k ∧ lo ≤ s'.off ∧ s'.off + s'.len ≤ hi) ∨
+      (∃ l, w.HasSlice l ∧ s'.region = l.region ∧ l.region = .chunk k ∧ s'.off = l.off ∧
+        l.off + l.len = lo ∧ s'.off + s'.len = hi))
+
+theorem HStep.fresh {i : Nat} {w w' : World} {held held' : Option ASlice} (h : HInv i w held)
+    (hst : HStep i w held w' held') : StepFresh (w.holding held) (w'.holding held') := by
+  obtain ⟨caps, ha⟩ := h.arena
+  obtain ⟨caps', ha'⟩ := (hst.inv h).arena
+  obtain ⟨k, lo, hi, h1, _, h3, h4⟩ := hst.astep.fresh h.bounded ha ha'
+  exact ⟨k, lo, hi, h1, h3, h4⟩
+
+/-- A chain of micro-steps each of which satisfies `P`. -/
+inductive HPathP (i : Nat) (P : World → Option ASlice → World → Option ASlice → Prop) :
+    World → Option ASlice → World → Option ASlice → Prop
+  | nil (w : World) (held : Option ASlice) : HPathP i P w held w held
+  | cons {w w1 w2 : World} {h h1 h2 : Option ASlice} : HStep i w h w1 h1 → P w h w1 h1 → HPathP i P w1 h1 w2 h2 →
+      HPathP i P w h w2 h2
+
+/-- What holds at every micro-step of a chain that starts in a world satisfying the invariant: the
+invariant before and after, and the conclusion of `C05.no_overlap` on the holding worlds. -/
+def StepGood (i : Nat) (a : World) (ha : Option ASlice) (b : World) (hb : Option ASlice) : Prop :=
+  HInv i a ha ∧ HInv i b hb ∧ StepFresh (a.holding ha) (b.holding hb)
+
+theorem HPath.all_fresh {i : Nat} {w w' : World} {held held' : Option ASlice} (p : HPath i w held w' held')
+    (h : HInv i w held) : HPathP i (StepGood i) w held w' held' := by
+  induction p with
+  | nil => exact .nil _ _
+  | cons s _ ih => exact .cons s ⟨h, s.inv h, s.fresh h⟩ (ih (s.inv h))
+
 end Woodpile.Iovec
